@@ -34,6 +34,8 @@ import (
 
 var flatSerial int
 
+var externUses = map[string]bool{}
+
 type normResult struct {
 	Overlay  map[string][]byte // absolute file -> normalised content
 	Inlined  []string          // "callee into caller" lines
@@ -167,6 +169,18 @@ func normalize(repo string, pkgs []*packages.Package, overlay map[string][]byte,
 			imp[p.PkgPath] = p.Types
 		}
 	})
+	// exported functions of the module that another package of the module refers to
+	externUses = map[string]bool{}
+	for _, p := range pkgs {
+		if p.TypesInfo == nil {
+			continue
+		}
+		for _, obj := range p.TypesInfo.Uses {
+			if f, ok := obj.(*types.Func); ok && f.Pkg() != nil && f.Pkg() != p.Types && strings.HasPrefix(f.Pkg().Path(), modPath) {
+				externUses[f.FullName()] = true
+			}
+		}
+	}
 	for _, p := range pkgs {
 		if !(p.PkgPath == modPath || strings.HasPrefix(p.PkgPath, modPath+"/")) || len(p.CompiledGoFiles) == 0 {
 			continue
@@ -278,6 +292,15 @@ func normalizePackage(repo, relDir string, p *packages.Package, imp types.Import
 		}
 		if len(decls) == 0 {
 			break
+		}
+		// a function whose whole body forwards its parameters to a new function that nobody else uses is
+		// that function under another name (`func (w *W) Add(d any) { w.addImpl(d) }`): the body moves back
+		if fwds := findForwarders(np, decls); len(fwds) > 0 {
+			applyForwarders(np, fwds, src, names)
+			for _, fwd := range fwds {
+				res.Inlined = append(res.Inlined, fmt.Sprintf("%s is the body of its only caller %s (forwarder removed)", fwd.callee.FullName(), declKey(relDir, fwd.outer)))
+			}
+			continue
 		}
 		// calls among new functions (for recursion and innermost-first order)
 		callsNew := map[*types.Func]map[*types.Func]bool{}
@@ -996,4 +1019,162 @@ func flattenOne(src []byte, keep map[string]bool, serial int) ([]byte, string, b
 		return out.Bytes(), ctext, true
 	}
 	return src, "", false
+}
+
+// ---------------------------------------------------------------- forwarders
+
+type forwarder struct {
+	outer     *ast.FuncDecl // the function that only forwards
+	outerFile int
+	inner     *ast.FuncDecl // the new function holding the body
+	innerFile int
+	callee    *types.Func
+}
+
+// findForwarder: a declaration whose body is exactly one call of a function that is not in the
+// inventory, passing its own parameters in order (same receiver, same signature), where that function
+// is referred to nowhere else but inside itself.
+func findForwarders(np *npkg, decls map[*types.Func]*ast.FuncDecl) []*forwarder {
+	var out []*forwarder
+	taken := map[*ast.FuncDecl]bool{}
+	fileOf := map[*ast.FuncDecl]int{}
+	for i, f := range np.files {
+		for _, d := range f.Decls {
+			if fd, ok := d.(*ast.FuncDecl); ok {
+				fileOf[fd] = i
+			}
+		}
+	}
+	for i, f := range np.files {
+		for _, d := range f.Decls {
+			fd, ok := d.(*ast.FuncDecl)
+			if !ok || fd.Body == nil || len(fd.Body.List) != 1 || fd.Type.TypeParams != nil {
+				continue
+			}
+			var call *ast.CallExpr
+			switch st := fd.Body.List[0].(type) {
+			case *ast.ReturnStmt:
+				if len(st.Results) == 1 {
+					call, _ = st.Results[0].(*ast.CallExpr)
+				}
+			case *ast.ExprStmt:
+				call, _ = st.X.(*ast.CallExpr)
+			}
+			if call == nil {
+				continue
+			}
+			cal, ok := typeutil.Callee(np.info, call).(*types.Func)
+			if !ok || decls[cal] == nil || decls[cal] == fd {
+				continue
+			}
+			outerObj, ok := np.info.Defs[fd.Name].(*types.Func)
+			if !ok {
+				continue
+			}
+			so, si := outerObj.Type().(*types.Signature), cal.Type().(*types.Signature)
+			if (so.Recv() == nil) != (si.Recv() == nil) {
+				continue
+			}
+			if so.Recv() != nil {
+				if !types.Identical(so.Recv().Type(), si.Recv().Type()) {
+					continue
+				}
+				sel, isSel := call.Fun.(*ast.SelectorExpr)
+				if !isSel || len(fd.Recv.List) != 1 || len(fd.Recv.List[0].Names) != 1 {
+					continue
+				}
+				rid, isId := sel.X.(*ast.Ident)
+				if !isId || np.info.Uses[rid] != np.info.Defs[fd.Recv.List[0].Names[0]] {
+					continue
+				}
+			}
+			if !types.Identical(types.NewSignatureType(nil, nil, nil, so.Params(), so.Results(), so.Variadic()),
+				types.NewSignatureType(nil, nil, nil, si.Params(), si.Results(), si.Variadic())) {
+				continue
+			}
+			// arguments: the parameters, in order
+			var params []*ast.Ident
+			for _, fl := range fd.Type.Params.List {
+				params = append(params, fl.Names...)
+			}
+			if len(params) != so.Params().Len() || len(call.Args) != len(params) || (so.Variadic() != call.Ellipsis.IsValid()) {
+				continue
+			}
+			okArgs := true
+			for k, arg := range call.Args {
+				id, isId := arg.(*ast.Ident)
+				if !isId || params[k].Name == "_" || np.info.Uses[id] != np.info.Defs[params[k]] {
+					okArgs = false
+				}
+			}
+			if !okArgs {
+				continue
+			}
+			// the inner function is used only here and inside itself
+			inner := decls[cal]
+			usedElsewhere := false
+			for id, obj := range np.info.Uses {
+				if obj != types.Object(cal) {
+					continue
+				}
+				if id.Pos() >= inner.Pos() && id.End() <= inner.End() {
+					continue
+				}
+				if id.Pos() >= call.Pos() && id.End() <= call.End() {
+					continue
+				}
+				usedElsewhere = true
+			}
+			if usedElsewhere || (ast.IsExported(cal.Name()) && externUses[cal.FullName()]) {
+				continue
+			}
+			if taken[fd] || taken[inner] {
+				continue // chains are resolved one link per round
+			}
+			taken[fd], taken[inner] = true, true
+			out = append(out, &forwarder{outer: fd, outerFile: i, inner: inner, innerFile: fileOf[inner], callee: cal})
+		}
+	}
+	return out
+}
+
+// applyForwarder deletes the forwarding declaration (its lines stay, blank) and gives its name to the
+// function that holds the body, including the references inside that body.
+func applyForwarders(np *npkg, fws []*forwarder, src map[string][]byte, names []string) {
+	type ed struct {
+		lo, hi int
+		s      string
+	}
+	edits := map[int][]ed{}
+	off := func(p token.Pos) int { return np.fset.Position(p).Offset }
+	for _, fw := range fws {
+		lo := fw.outer.Pos()
+		if fw.outer.Doc != nil {
+			lo = fw.outer.Doc.Pos()
+		}
+		b := src[names[fw.outerFile]]
+		edits[fw.outerFile] = append(edits[fw.outerFile], ed{off(lo), off(fw.outer.End()), strings.Repeat("\n", bytes.Count(b[off(lo):off(fw.outer.End())], []byte("\n")))})
+		edits[fw.innerFile] = append(edits[fw.innerFile], ed{off(fw.inner.Name.Pos()), off(fw.inner.Name.End()), fw.outer.Name.Name})
+		for id, obj := range np.info.Uses {
+			if obj == types.Object(fw.callee) && id.Pos() >= fw.inner.Pos() && id.End() <= fw.inner.End() {
+				edits[fw.innerFile] = append(edits[fw.innerFile], ed{off(id.Pos()), off(id.End()), fw.outer.Name.Name})
+			}
+		}
+	}
+	for fi, es := range edits {
+		sort.Slice(es, func(i, j int) bool { return es[i].lo < es[j].lo })
+		var out bytes.Buffer
+		at := 0
+		bb := src[names[fi]]
+		for _, e := range es {
+			if e.lo < at {
+				continue
+			}
+			out.Write(bb[at:e.lo])
+			out.WriteString(e.s)
+			at = e.hi
+		}
+		out.Write(bb[at:])
+		src[names[fi]] = out.Bytes()
+	}
 }
